@@ -51,7 +51,7 @@ def source(sfx, p, with_inner=True, variant=0):
     """variant 1 = the 'other module': same class names, different fields."""
     S = "__" + sfx
     L = ["from utype import Schema, DataClass, Field, Options, Lax", "import utype",
-         "from typing import List, Dict, Tuple, Set, Optional, Any, Generator, Annotated, Union, Literal, Deque",
+         "from typing import List, Dict, Tuple, Set, Optional, Any, Generator, Annotated, Union, Literal, Deque, Iterator",
          "from collections import deque, defaultdict",
          "from sim.faults import Leaf, hook_point", "",
          "import enum", "class EnumOfLists(enum.Enum):", "    A = [1, 1]", "    B = [2, 2]", "",
@@ -102,6 +102,8 @@ def source(sfx, p, with_inner=True, variant=0):
           f"KindT{S} = Literal['x']", f"NameT{S} = str", ""]
     L += ["@utype.parse", f"def f{S}(n: int, lst: List[int] = [1], dct: Dict[str, List[int]] = {{'k': [1]}}, leaf: Optional[Leaf] = None, *args: int, **kw: int):",
           "    return {'n': n, 'lst': lst, 'dct': dct, 'leaf': leaf, 'args': list(args), 'kw': kw}", ""]
+    L += ["@utype.parse", f"def it{S}(xs: Optional[Iterator[int]] = None, ys: Union[Iterator[int], Iterator[str]] = ()):",
+          "    return [list(xs) if xs is not None else None, list(ys)]", ""]
     L += ["@utype.parse", f"def gen{S}(n: int, acc: List[int] = [0]) -> Generator[int, None, List[int]]:",
           "    for i in range(n):", "        acc.append(i)", "        yield i", "    return acc", ""]
     L += ["@utype.parse", f"def h{S}(x: Optional['Inner{S}'] = None, n: int = 0, xs: List['Inner{S}'] = (), ann: Annotated[List[int], Field(max_length=9)] = [4]):",
@@ -210,6 +212,8 @@ def generate(rng, tier):
         elif r < 0.405:
             # parse, then assign to the nested instance: equal parsed instances take the same assignment alike
             ops.append({"op": "nested_assign", "value": rng.choice(["2", 3, "zz"])})
+        elif r < 0.408:
+            ops.append({"op": "iter_arg", "param": rng.choice(["xs", "ys"]), "items": rng.choice([["1", "2", "3"], [1, 2], ["1", "zz"], [], [1, "2"]])})
         elif r < 0.41:
             # an instance made by __from__, initialised again after an initialisation that was refused
             ops.append(rng.choice([{"op": "reinit", "cls": "RX", "good": {"dep": 1, "main": 2}}, {"op": "reinit", "cls": "RX", "good": {"main": 2}}]) if rng.random() < 0.4 else
@@ -422,6 +426,17 @@ def run_op(world, op, inputs_out=None, prebuilt=None):
                 raise AssertionError(f"equal nested instances took the assignment differently: {outs[0]} vs {outs[1]}")
             return kernel.jdump(outs[0])
         return _outcome(both)
+    if k == "iter_arg":
+        f = world.get("it")
+
+        def both():
+            # a one-shot iterator is consumed by any parse, but it gives what the same items in a list give
+            a = _outcome(lambda: f(**{op["param"]: iter(list(op["items"]))}))[1]
+            b = _outcome(lambda: f(**{op["param"]: list(op["items"])}))[1]
+            if a != b:
+                raise AssertionError(f"the items given as a one-shot iterator give {a}, given as a list {b}")
+            return kernel.jdump(a)
+        return _outcome(both)
     if k == "reinit":
         cls = world.get(op["cls"])
 
@@ -536,6 +551,8 @@ def execute(plan):
         if k == "nested_assign" and out[:2] == ["exc", "AssertionError"]:
             # P4: the outcome of the assignment is a function of declaration, options and the (equal) data
             res.violate("C19|P4|nested_assign|equal_instances_take_assignment_differently", f"op #{n} {op}: {out[2]}")
+        if k == "iter_arg" and out[:2] == ["exc", "AssertionError"]:
+            res.violate("C19|P5|iter_arg|items_lost_to_failed_trial_passes", f"op #{n} {op}: {out[2]}")
         if k == "reinit" and out[:2] == ["exc", "AssertionError"]:
             res.violate("C19|P4|reinit|refused_initialisation_changes_the_next", f"op #{n} {op}: {out[2]}")
         if k == "init" and inputs:
